@@ -202,7 +202,7 @@ def history(ctx, n, steps, reordering):
     ctx.sample(dict(stream=s.label, first_lines=s.lines[:10]))
 
 
-def failed_retry(ctx, n, kind):
+def failed_retry(ctx, n, kind, P='C17'):
     """the call fails only AFTER a dynamic reordering was served: the first
     attempt raises the internal signal, the retry meets the offending name"""
     rng = ctx.rng
@@ -230,23 +230,23 @@ def failed_retry(ctx, n, kind):
     ctx.case(('failed-retry', n, kind, tuple(toks)), True)
     ctx.count('failed-retry:' + kind)
     if res.startswith('ok:'):
-        ctx.violation('C17:accepted', 'a formula with an undeclared name / syntax error was accepted', M.case())
+        ctx.violation(P + ':accepted', 'a formula with an undeclared name / syntax error was accepted', M.case())
     if M.b._last_len is None:
-        ctx.violation('C17:configuration-changed',
+        ctx.violation(P + ':configuration-changed',
                       'the rejected add_expr (rejected on the retry after a dynamic reordering) '
                       'left dynamic reordering switched off', M.case())
     for u, t in before.items():
         if abs(u) not in M.b._succ or M.tt(u) != t:
-            ctx.violation('C17:reference-changed', f'held reference {u} changed', M.case())
+            ctx.violation(P + ':reference-changed', f'held reference {u} changed', M.case())
     bad = oracle.check_table(M.b, external=ledger)
     if bad:
-        ctx.violation('C17:not-canonical', f'{bad[:3]}', M.case())
+        ctx.violation(P + ':not-canonical', f'{bad[:3]}', M.case())
     if kind == 'undeclared':
         # later calls behave normally
         if held:
             r = M.op('apply', 'or', held[0], held[-1], None)
             if r is None or M.tt(r) != (before[held[0]] | before[held[-1]]):
-                ctx.violation('C17:later-call', 'a call after the rejected one misbehaves', M.case())
+                ctx.violation(P + ':later-call', 'a call after the rejected one misbehaves', M.case())
         for u in held:
             M.op('decref', u)
         M.op('configure', False)
@@ -291,6 +291,15 @@ def json_faults(ctx, n, receiver, fault):
         bad_ns[-1] = (k, n + 3, lo, hi)
     elif fault == 'parent-first':
         bad_ns = [ns[-1]] + ns[:-1]
+    elif fault == 'negated-node':
+        # a line that denotes the COMPLEMENT of a node (both edges flipped): the file format
+        # stores regular nodes only, the loader refuses it; in the receiver that dumped the
+        # file this function (up to complement) is a node the caller holds
+        def flip(x):
+            return {'T': 'F', 'F': 'T'}.get(x, None) or (-x if isinstance(x, int) else x)
+        i = rng.randrange(len(ns))
+        k, l, lo, hi = ns[i]
+        bad_ns[i] = (k, l, flip(lo), flip(hi))
     got = s.op(R, 'json_load', {v: l for v, l in lv}, bad_rt, JNodes(bad_ns), False)
     case = lambda: dict(stream=s.label, lines=list(s.lines))  # noqa: E731
     ctx.case(('json-fault', fault, receiver, n, tuple(bad_ns)), True)
@@ -383,9 +392,9 @@ def run(ctx):
                 failed_retry(ctx, n, kind)
     for order in (gen.orders(4) if not q else rng.sample(gen.orders(4), 6)):
         undeclare_mix(ctx, order, reordering=rng.random() < 0.3)
-    for fault in ('unknown-child', 'unknown-root', 'bad-level', 'parent-first'):
+    for fault in ('unknown-child', 'unknown-root', 'bad-level', 'parent-first', 'negated-node'):
         for receiver in ('fresh', 'same', 'in-use'):
-            for _ in range(1 if q else 8):
+            for _ in range((3 if fault == 'negated-node' else 1) if q else 8):
                 json_faults(ctx, rng.choice([2, 3]), receiver, fault)
     for i in range(24 if q else 300):
         history(ctx, rng.choice([2, 3, 3, 4]), 40 if q else 80, reordering=(i % 3 == 2))
